@@ -322,6 +322,14 @@ def r5(ctx):
         full = bind is not None and bind[0] == j and bind[1] in (Range(0, tm.length(sm)), Range(0, tm.length(Range(0, tm.length(sm)))))
         ok = sm == want and full
         found = f"{name}[{members}[{sm}[{j}]]] for {bind[0] if bind else '?'} in {bind[1] if bind else '?'}"
+    # direct form: random.sample(members, m)[j] - the drawn elements themselves (same positions, same use of the generator)
+    if not ok and isinstance(idx, Idx) and len(idx.idx) == 1 and isinstance(idx.base, App) and idx.base.fn == "random.sample":
+        sm = idx.base
+        j = idx.idx[0]
+        bind = b.binder_of(s.loops[-1]) if s.loops else None
+        full = bind is not None and bind[0] == j and bind[1] in (Range(0, tm.length(sm)), Range(0, tm.length(Range(0, tm.length(sm)))))
+        ok = sm == App("random.sample", (members, Attr(Attr(model, "arguments"), "min_cluster_size"))) and full
+        found = f"{name}[{sm}[{j}]] for {bind[0] if bind else '?'} in {bind[1] if bind else '?'}"
     ctx.check(ok, mv, "the relabelled points are members[i] for i in random.sample(range(len(members)), m): m distinct points of the donor",
               line=s.stmt.lineno, role="move:which", expected=f"random.sample(range(len({members})), m) indexing {members}", found=found[:220])
     others = [m_ for m_ in b.mutated.get(name, []) if not isinstance(m_, ast.Assign)]
